@@ -74,6 +74,24 @@ impl Cache {
         procs
     }
 
+    /// the processes in the cache plus those the LRU has dropped while an instance of them is still
+    /// alive (their timeout rules go on counting)
+    pub fn alive_procs(&self) -> Vec<Arc<Process>> {
+        let mut procs = self.procs();
+        let cached: std::collections::HashSet<String> =
+            procs.iter().map(|p| p.id().to_string()).collect();
+        let live = self.live.lock().unwrap();
+        for (pid, proc) in live.iter() {
+            if cached.contains(pid) {
+                continue;
+            }
+            if let Some(proc) = proc.upgrade() {
+                procs.push(proc);
+            }
+        }
+        procs
+    }
+
     #[instrument]
     pub fn proc(&self, pid: &str, rt: &Arc<Runtime>) -> Option<Arc<Process>> {
         debug!("process: pid={pid}");
